@@ -5,8 +5,11 @@ _RULE = ("Theorems (Coq, no axioms) over a byte-level model of bucketteer's writ
          "(current Version 2: all 65 536 prefixes, indexmeta metadata; legacy Version 1: present prefixes sorted by bytes, "
          "borsh string metadata), for EVERY hash function, every multiset of signatures in any order with any duplicates and "
          "any distribution over the prefixes, and all metadata: the sealed file answers Has(s) = Ok(writer's in-memory Has(s)) "
-         "for every 64-byte s; hence every added signature is reported present (C05_no_false_negative) and a signature is "
-         "reported present only if an added signature has the same two-byte prefix and the same 64-bit hash (C05_positive_char).")
+         "for every 64-byte s (C05_writer_agrees); hence every added signature is reported present (C05_no_false_negative) and a signature is "
+         "reported present only if an added signature has the same two-byte prefix and the same 64-bit hash (C05_positive_char). Also: "
+         "C05_writer_has_char, C05_put_appends_to_own_bucket, C05_small_of_few (fewer than 2^29 signatures satisfy the forced hypothesis), "
+         "C05_seal_succeeds, C05_fuel_never_decides (no answer of the model on any byte file is an out-of-fuel artefact); version numbers, "
+         "magic and metadata limits are regenerated from the source on every check (Generated/ConstsC05.v).")
 
 PROP = dict(
     title="Signature-existence index has no false negatives",
